@@ -6,7 +6,7 @@
    global index, every attribute/public assignment, ignorePublic, includeSelf, ring mode or any admissible
    neighbour hints with ANY order of arrival, every history of resizes and rebuilds. *)
 From Coq Require Import List Arith Bool ZArith Permutation Lia.
-From DuneV Require Import C04_Model C04_Spec C04_Proofs C04_Proofs_Build C04_Proofs_Sync C04_Proofs_Ring C04_Proofs_Obj C04_Proofs_Exec C04_Proofs_Mixed.
+From DuneV Require Import C04_Model C04_Spec C04_Proofs C04_Proofs_Build C04_Proofs_Sync C04_Proofs_Ring C04_Proofs_Obj C04_Proofs_Exec C04_Proofs_Mixed C04_Proofs_Comm.
 Import ListNotations.
 
 (* the merge-join loop (index / oldGlobal / restart at oldLocalIndex) never runs out of fuel and returns the join
@@ -386,3 +386,88 @@ Example C04_example_mixed_build :
   c04_spec_rank_mixed false [false; true] false d 0 =
     [(1, ([(2, C04_mkpair 1 10 0 true); (2, C04_mkpair 3 12 0 true)], [(1, C04_mkpair 3 12 0 true)]))].
 Proof. vm_compute. split; reflexivity. Qed.
+
+(* ==== DIMENSION AUDIT 2 ========================================================================================= *)
+(* THE COMMUNICATOR OF A RE-USED OBJECT.  comm_ is written by the constructor and by setIndexSets and read by buildRemote.  For
+   every history over setIndexSets(.., comm k, ..) / setNeighbours / setIncludeSelf / free / rebuild / resizes, starting from the
+   constructor with communicator k0: the communicator the object builds on is the one given LAST (nothing of an earlier one
+   survives), and map, neighbourIds and isSynced follow the history spec whose every build uses the communicator in force. *)
+Theorem C04_obj_history_comm : forall (result : Type) (buildfc : nat -> c04_decomp -> bool -> bool -> list (list nat) -> result)
+    two P slots s k0 hints inc ops, s < length slots ->
+  Forall (c04_hopc_wf (length slots)) ops ->
+  let yc := c04_hrunc result buildfc (c04_sysc_ctor result two P slots s k0 hints inc) ops in
+  let hk := c04_hspec_runc result buildfc (c04_hspec_ctor result two P slots s hints inc, k0) ops in
+  c04_sc_comm _ yc = c04_last_comm k0 ops /\ snd hk = c04_last_comm k0 ops /\
+  c04_ob_map _ (c04_sy_obj _ (c04_sc_sys _ yc)) = c04_hs_map _ (fst hk) /\
+  c04_ob_hints _ (c04_sy_obj _ (c04_sc_sys _ yc)) = c04_hs_hints _ (fst hk) /\
+  (forall ig, c04_hs_built _ (fst hk) = Some ig -> c04_obj_synced _ (c04_sc_sys _ yc) = negb (c04_hs_stale _ (fst hk))).
+Proof. exact P_obj_history_comm. Qed.
+Print Assumptions C04_obj_history_comm.
+
+(* PRE-EXISTING STATE OF THE TARGET.  Whatever the object went through before (ops1: other index sets, other communicators, hints,
+   includeSelf, builds in either publicity mode, free(), resizes), after  setIndexSets(S_s, T_s, comm k [, hints]); setIncludeSelf(b)
+   it behaves in EVERY further history ops2 exactly like a newly constructed RemoteIndices(S_s, T_s, comm k, hints, b) over the
+   same index-set objects: same communicator, same map, same neighbourIds, same firstBuild, same isSynced once built. *)
+Theorem C04_retarget_as_fresh : forall (result : Type) (buildfc : nat -> c04_decomp -> bool -> bool -> list (list nat) -> result)
+    two P slots s0 k0 hints0 inc0 ops1 s k hi b ops2,
+  s0 < length slots -> s < length slots ->
+  Forall (c04_hopc_wf (length slots)) ops1 -> Forall (c04_hopc_wf (length slots)) ops2 ->
+  let yc := c04_hrunc result buildfc (c04_sysc_ctor result two P slots s0 k0 hints0 inc0) ops1 in
+  let y := c04_sc_sys _ yc in
+  let hints := match hi with Some l => l | None => repeat [] (c04_sy_P _ y) end in
+  let y1 := c04_hrunc result buildfc yc ([C04_CSetIndexSets s k hi; C04_COp (C04_HSetIncludeSelf b)] ++ ops2) in
+  let y2 := c04_hrunc result buildfc (c04_sysc_ctor result (c04_sy_two _ y) (c04_sy_P _ y) (c04_sy_slots _ y) s k hints b) ops2 in
+  c04_sc_comm _ y1 = c04_sc_comm _ y2 /\
+  c04_ob_map _ (c04_sy_obj _ (c04_sc_sys _ y1)) = c04_ob_map _ (c04_sy_obj _ (c04_sc_sys _ y2)) /\
+  c04_ob_hints _ (c04_sy_obj _ (c04_sc_sys _ y1)) = c04_ob_hints _ (c04_sy_obj _ (c04_sc_sys _ y2)) /\
+  c04_ob_first _ (c04_sy_obj _ (c04_sc_sys _ y1)) = c04_ob_first _ (c04_sy_obj _ (c04_sc_sys _ y2)) /\
+  (c04_ob_first _ (c04_sy_obj _ (c04_sc_sys _ y1)) = false ->
+   c04_obj_synced _ (c04_sc_sys _ y1) = c04_obj_synced _ (c04_sc_sys _ y2)).
+Proof. exact P_retarget_as_fresh. Qed.
+Print Assumptions C04_retarget_as_fresh.
+
+(* the concrete build on communicator k (0 given, 1 duplicate, 2 reversed, 3 rotated): the set comprehension over the
+   decomposition as numbered by that communicator, for the process with rank p IN that communicator *)
+Theorem C04_obj_build_comm_is_spec : forall (two ign incself : bool) k d hints p,
+  let dv := c04_comm_view k ([], []) d in
+  c04_decomp_sorted dv -> p < length dv ->
+  (forallb c04_is_nil hints = true \/
+   (forallb (fun h => negb (c04_is_nil h)) hints = true /\ c04_hints_ok ign two incself dv p (nth p hints []))) ->
+  nth p (c04_obj_buildf_comm two k d ign incself hints) C04_OutOfFuel = C04_Ok (c04_spec_rank ign two incself dv p).
+Proof. exact P_obj_buildf_comm_spec. Qed.
+Print Assumptions C04_obj_build_comm_is_spec.
+
+(* ASYMMETRIC CONFIGURATION: includeSelf differing from process to process.  The map of rank p is the one of the uniform build
+   with p's own value (to which C04_spec applies): no process's includeSelf influences another process's lists. *)
+Theorem C04_build_incs : forall two ign incs d mode p, p < length d ->
+  nth p (c04_build_incs two ign incs d mode) C04_OutOfFuel = nth p (c04_build two ign (nth p incs false) d mode) C04_OutOfFuel.
+Proof. exact P_build_incs. Qed.
+Print Assumptions C04_build_incs.
+
+(* non-vacuity: an object built on communicator 0 over slot 0 with hints, then re-targeted to slot 1 on the REVERSED communicator
+   (k = 2) without hints: it builds on communicator 2, where the process with rank 0 is old process 2 (which shares index 2 with
+   old process 0 = new rank 2); and it equals the freshly constructed object on that communicator *)
+Example C04_example_history_comm :
+  let dA : c04_decomp := [([C04_mkpair 1 0 0 true], []); ([C04_mkpair 1 1 0 true], []); ([C04_mkpair 9 2 0 true], [])] in
+  let dB : c04_decomp := [([C04_mkpair 1 0 0 true; C04_mkpair 2 3 0 true], []); ([C04_mkpair 1 1 0 true], []); ([C04_mkpair 2 2 0 true], [])] in
+  let slots := [C04_mkslot dA 1 1; C04_mkslot dB 1 1] in
+  let bf := c04_obj_buildf_comm false in
+  let pre := [C04_COp (C04_HRebuild false)] in
+  let cfg := [C04_CSetIndexSets 1 2 None; C04_COp (C04_HSetIncludeSelf false)] in
+  let y1 := c04_hrunc _ bf (c04_sysc_ctor _ false 3 slots 0 0 [[1]; [0; 2]; [1]] false) (pre ++ cfg ++ [C04_COp (C04_HRebuild false)]) in
+  let y2 := c04_hrunc _ bf (c04_sysc_ctor _ false 3 slots 1 2 [[]; []; []] false) [C04_COp (C04_HRebuild false)] in
+  c04_sc_comm _ y1 = 2 /\ c04_last_comm 0 (pre ++ cfg) = 2 /\
+  c04_ob_map _ (c04_sy_obj _ (c04_sc_sys _ y1)) = c04_ob_map _ (c04_sy_obj _ (c04_sc_sys _ y2)) /\
+  option_map (fun l => nth 0 l C04_Mixed) (c04_ob_map _ (c04_sy_obj _ (c04_sc_sys _ y1)))
+    = Some (C04_Ok [(2, ([(0, C04_mkpair 2 2 0 true)], [(0, C04_mkpair 2 2 0 true)]))]) /\
+  c04_comm_view 2 0 [10; 11; 12] = [12; 11; 10] /\ c04_comm_view 3 0 [10; 11; 12] = [12; 10; 11].
+Proof. vm_compute. repeat split; reflexivity. Qed.
+
+(* non-vacuity: two index sets, rank 0 with includeSelf and rank 1 without: both hold their self entry (two sets), rank 0's
+   with the equal-attribute pair dropped *)
+Example C04_example_incs :
+  let d : c04_decomp := [([C04_mkpair 1 0 0 true; C04_mkpair 2 1 1 true], [C04_mkpair 1 5 0 true; C04_mkpair 2 6 0 true]);
+                         ([C04_mkpair 1 0 0 true], [C04_mkpair 1 7 0 true])] in
+  map (fun r => match r with C04_Ok m => map (fun e => (fst e, length (fst (snd e)))) m | _ => [] end)
+      (c04_build_incs true false [true; false] d None) = [[(0, 1); (1, 1)]; [(0, 1); (1, 1)]].
+Proof. vm_compute. reflexivity. Qed.
